@@ -674,9 +674,9 @@ func init() {
 										continue
 									}
 									before := b.cookieHeader()
-									et.redisFault = map[string]string{cmd: "hang"}
+									et.setRedisFault(map[string]string{cmd: "hang"})
 									v := et.do(reqSpec{Target: et.opts.ProxyPrefix + "/sign_out", Cookie: before})
-									et.redisFault = nil
+									et.setRedisFault(nil)
 									r2 := et.do(reqSpec{Target: "/app/replay", Cookie: before})
 									c.casen("c11|stall|"+cmd, fmt.Sprint(v.Status))
 									c.count("signout:redis-stall")
@@ -969,12 +969,12 @@ func init() {
 								}
 								ck := b.cookieHeader()
 								if kind == "always-hook" {
-									eb.redisFault = map[string]string{"DEL": "always"}
+									eb.setRedisFault(map[string]string{"DEL": "always"})
 								} else {
-									eb.redisFault = map[string]string{"DEL": "before"}
+									eb.setRedisFault(map[string]string{"DEL": "before"})
 								}
 								v := eb.do(reqSpec{Target: eb.opts.ProxyPrefix + "/sign_out", Cookie: ck})
-								eb.redisFault = nil
+								eb.setRedisFault(nil)
 								r2 := eb.do(reqSpec{Target: "/app/replay", Cookie: ck})
 								c.casen("c11|backend-logout-del-fails|"+kind, fmt.Sprint(v.Status))
 								c.count("signout:del-fault-backend-logout")
